@@ -546,8 +546,11 @@ def _n7(ctx, R):
                 R.bad("N7", "%s|%s.%s foreign" % (f.key, pc, a), f.loc(), "%s reads %s under isinstance(%s)" % (f.qualname, a, pc))
     # apply_namespace must also (re)fill the new index from each relation
     ap = nm.methods.get("apply_namespace")
-    filled = {norm(c.args[0]).split(".")[-1] for g in _with_private_helpers(P, ap) for c in walk_local(g.node)
-              if isinstance(c, ast.Call) and norm(c.func) == "self._update_new_namespace" and c.args}
+    # (whatever the order of the helper's parameters, and however many groups one call hands over: the relations are the arguments of the
+    # form `<element>.<relation>`)
+    filled = {a_.attr for g in _with_private_helpers(P, ap) for c in walk_local(g.node)
+              if isinstance(c, ast.Call) and norm(c.func).split(".")[-1] == "_update_new_namespace"
+              for a_ in list(c.args) + [k.value for k in c.keywords] if isinstance(a_, ast.Attribute) and a_.attr in all_attrs}
     for pc, rels in SCHEMA.items():
         for a, _ in rels:
             cells += 1
@@ -719,8 +722,9 @@ def _n9(ctx, R):
     P = ctx.P
     en = P.cls(EN, "EdififyNames")
     ec = P.cls(NS_EDIF, "EdifNamespace")
-    good = en.methods.get("_characters_good")
-    chk = ec.methods.get("_check_EDIF_identifier")
+    from .edif_names_rules import naming_role
+    good = naming_role(P, "chars_good")
+    chk = naming_role(P, "policy_check")
     if good is None or chk is None:
         raise AnalysisError("anchor vanished: _characters_good / _check_EDIF_identifier")
     wf, wb = writer_classes(good)
